@@ -129,7 +129,7 @@ def make_convert_harness(cfg, tw):
     def harness():
         eng = core.engine()
         vfs.reset()
-        ids = [eng.int("id%d" % i, 0, 1000000) for i in range(n)]
+        ids = [eng.int("id%d" % i, 0, 2 ** 31 - 1) for i in range(n)]      # any non-negative 32-bit identifier
         labs = [eng.int("lab%d" % i, 1, K) for i in range(n)]            # stored labels are 1-based
         feats = [[eng.real("v_%d_%d" % (i, j)) for j in range(f)] for i in range(n)]
         fields = [("i", n), ("i", K), ("i", f)]
@@ -154,7 +154,7 @@ def make_convert_harness(cfg, tw):
                 graphs[k] = None
         out = dict(ids=ids, labs=labs, feats=feats, loaded=loaded, parsed=parsed, graphs=graphs)
         # history: a second data set exported under the SAME file names must be what is loaded afterwards
-        ids2 = [eng.int("jd%d" % i, 0, 1000000) for i in range(n)]
+        ids2 = [eng.int("jd%d" % i, 0, 2 ** 31 - 1) for i in range(n)]
         feats2 = [[eng.real("u_%d_%d" % (i, j)) for j in range(f)] for i in range(n)]
         fields = [("i", n), ("i", K), ("i", f)]
         for i in range(n):
